@@ -26,7 +26,7 @@ ASSUMPTIONS = [
     "an undeclared endpoint referenced from several argument positions may be inferred as any of the implied kinds",
 ]
 REQUIRED_CLASSES = {"all": ["shape:undeclared_endpoint", "shape:parallel", "shape:self_loop", "shape:merged", "shape:undrawable",
-                            "kind:mention", "kind:membership", "kind:derivation"]}
+                            "kind:mention", "kind:membership", "kind:derivation", "converted_then_edited"]}
 
 ARG_KIND = {
     "entity": "Entity", "activity": "Activity", "agent": "Agent", "trigger": "Entity", "generatedEntity": "Entity",
@@ -80,6 +80,23 @@ def check(case, ctx):
     from prov.model import ProvException
     b = build(case)
     d = b.doc
+    if len(case["ops"]) % 3 == 0 and b.records:
+        # the document was converted before and one of its records has been completed since (no record added):
+        # the conversion must show the document as it is now
+        from prov.identifier import Namespace
+        try:
+            prov_to_graph(d)
+        except ProvException:
+            pass
+        si, rec, m = b.records[len(case["ops"]) % len(b.records)]
+        LATE = Namespace("late", "http://late.example/")
+        rec.add_attributes([(LATE["added"], "after-first-conversion")])
+        m["attrs"].append((LATE["added"].uri, ("str", "after-first-conversion")))
+        fargs = spec.formal_args(m["kind"])
+        if len(fargs) > 1 and fargs[1][1] == "ref" and not any(a == spec.PROV_NS + fargs[1][0] for a, _ in m["attrs"]):
+            rec.add_attributes([(Namespace("prov", spec.PROV_NS)[fargs[1][0]], LATE["endpoint"])])
+            m["attrs"].append((spec.PROV_NS + fargs[1][0], ("qn", LATE["endpoint"].uri)))
+        ctx.count("converted_then_edited")
     content = content_of(b)
     must, may, expected, discard, stats = c08.reference(content)
     if discard or must or may:
